@@ -1,8 +1,9 @@
 SPECIFICATION Spec
 CONSTANTS
   Types = {"application/json", "text/plain", "application/xml"}
-  NCallers = 3
+  NCallers = 4
+  RecyclesWrappers = FALSE
   OnceIsNilCheck = FALSE
-INVARIANTS InvCtx InvPick InvOwn InvOneClient
+INVARIANTS InvCtx InvWire InvRetained InvPick InvOwn InvOneClient
 PROPERTIES AllDone
 CHECK_DEADLOCK FALSE
